@@ -11,8 +11,8 @@ import time
 VERIF = os.path.dirname(os.path.dirname(os.path.abspath(__file__)))
 SPEC = os.path.join(VERIF, "spec")
 HARNESS = os.path.join(VERIF, "harness")
-WORK = os.path.join(VERIF, "work")
-EVID = os.path.join(VERIF, "evidence")
+WORK = os.environ.get("VERIF_WORK") or os.path.join(VERIF, "work")          # overridable: parallel sweeps over scratch copies
+EVID = os.environ.get("VERIF_EVID") or os.path.join(VERIF, "evidence")     # (the registered commands never set these)
 REPLAYS = os.path.join(EVID, "replays")
 REPO = os.environ.get("VERIF_REPO", "/repo")      # the tree under verification (a snapshot of it for background sweeps)
 
